@@ -40,6 +40,10 @@ SILENT = re.compile(r"(num|ptr::mut_ptr|ptr::const_ptr)::(wrapping_\w+|saturatin
 INT_BITS = {"u8": 8, "u16": 16, "u32": 32, "u64": 64, "u128": 128, "usize": 64, "i8": 8, "i16": 16, "i32": 32, "i64": 64, "i128": 128, "isize": 64}
 
 
+COMMUTATIVE = ("Add", "Mul", "BitAnd", "BitOr", "BitXor", "Eq", "Ne")
+COMMUTATIVE_FNS = ("min", "max", "wrapping_add", "saturating_add", "checked_add", "wrapping_mul", "checked_mul", "saturating_mul")
+
+
 def sig(t):
     """line-free, rename-tolerant signature of a term (params by position, locals anonymous)"""
     t = deep_strip(t)
@@ -63,7 +67,11 @@ def sig(t):
     if k == 'index':
         return f"{sig(t[1])}[{sig(t[2])}]"
     if k == 'bin':
-        return f"({sig(t[2])} {t[1].replace('WithOverflow', '')} {sig(t[3])})"
+        op = t[1].replace('WithOverflow', '')
+        a, b = sig(t[2]), sig(t[3])
+        if op in COMMUTATIVE and b < a:
+            a, b = b, a
+        return f"({a} {op} {b})"
     if k == 'un':
         return f"{t[1]}({sig(t[2])})"
     if k == 'discr':
@@ -75,7 +83,10 @@ def sig(t):
         targs = ""
         if c[-1] in ("size_of", "align_of") and len(t) > 3 and t[3]:
             targs = "<" + ",".join(t[3]) + ">"
-        return f"{'::'.join(c[-2:])}{targs}({','.join(sig(x) for x in t[2])})"
+        args = [sig(x) for x in t[2]]
+        if c[-1] in COMMUTATIVE_FNS and len(args) == 2 and "Address" not in c[-2:-1]:
+            args = sorted(args)
+        return f"{'::'.join(c[-2:])}{targs}({','.join(args)})"
     if k == 'ok':
         return f"ok({sig(t[1])})"
     return k
@@ -88,7 +99,10 @@ def edges_of(prog, b):
         mac = t.get("mac", "") if t.get("exp") else ""
         if t["k"] == "assert":
             ops = [b.term(o, pos) for o in t["ops"]]
-            yield {"kind": t["msg"], "sig": ",".join(sig(o) for o in ops), "pos": pos, "ln": ln, "ops": ops, "mac": mac,
+            sigs = [sig(o) for o in ops]
+            if t["msg"] in ("Overflow:Add", "Overflow:Mul"):
+                sigs = sorted(sigs)
+            yield {"kind": t["msg"], "sig": ",".join(sigs), "pos": pos, "ln": ln, "ops": ops, "mac": mac,
                    "cond": b.term(t["cond"], pos), "expected": t["expected"]}
         elif t["k"] == "call":
             callee = t.get("resolved") or t.get("callee") or ""
@@ -106,7 +120,10 @@ def edges_of(prog, b):
             else:
                 if SILENT.search(cn):
                     args = [b.term(a, pos) for a in t["args"]]
-                    yield {"kind": "silent_wrap", "sig": f"{'::'.join(cn.split('::')[-2:])}({','.join(sig(a) for a in args)})", "pos": pos, "ln": ln, "ops": args, "mac": mac, "callee": cn}
+                    sa = [sig(a) for a in args]
+                    if cn.split("::")[-1] in COMMUTATIVE_FNS:
+                        sa = sorted(sa)
+                    yield {"kind": "silent_wrap", "sig": f"{'::'.join(cn.split('::')[-2:])}({','.join(sa)})", "pos": pos, "ln": ln, "ops": args, "mac": mac, "callee": cn}
     # narrowing casts
     for pos, s in b.stmts():
         if s["k"] == "assign" and s["rv"]["k"] == "cast" and s["rv"]["cast"] == "IntToInt":
